@@ -1,6 +1,6 @@
 (* C14 — JSON formatters emit one faithful JSON line and never alter the event. *)
 From Coq Require Import List NArith.
-From Verif Require Import Alist Json JsonProofs Formatters FormattersProofs FormatsExamples.
+From Verif Require Import Alist Json JsonProofs Formatters FormattersProofs FormatsExamples Run_Formatters RunFormatsSound.
 Import ListNotations.
 Open Scope N_scope.
 
@@ -118,6 +118,36 @@ Print Assumptions C14_lww_every_sequence.
 Theorem C14_format_table_lww : forall progs sched, interleave progs sched -> forall t, lww t sched.
 Proof. exact format_table_lww. Qed.
 Print Assumptions C14_format_table_lww.
+
+(* ---- the tie: what the correspondence check's verdict means ---- *)
+
+(* The check evaluates [Run_Formatters.mismatches] on the cases the real nodes produced and is green exactly when it is [].
+   That holds iff every case is accepted: a Process case's observation is the model's run (error flag, forwarded event, the
+   bytes under json = Json.render of the envelope, the other entries), type/time/payload were seen untouched, the stored
+   value is one newline-terminated line that Json.parse_doc reads as exactly created_at (a string), event_type = the type's
+   image, payload = the payload's image, Go's decoder agreed, an error not the predicate's left the table as it was, and the
+   value re-read after later Process calls is the stored one; a FormattedAs/Format schedule's results and final table are
+   the model table's.  Both directions: nothing the model cannot produce is accepted, nothing it produces is rejected. *)
+Theorem C14_verdict_is_model_execution : forall cs, mismatches cs = [] <-> Forall case_accepted cs.
+Proof. exact mismatches_nil_iff. Qed.
+Print Assumptions C14_verdict_is_model_execution.
+
+(* in an accepted schedule every observed Format(f) returned the last value stored under exactly f before it *)
+Theorem C14_accepted_schedule_is_lww : forall ops t final pre g f r post,
+  table_accepted t ops final -> ops = pre ++ (g, TGet f, r) :: post ->
+  r = Some (last_write f (tget f t) (ops_of pre)).
+Proof. exact table_accepted_lww. Qed.
+Print Assumptions C14_accepted_schedule_is_lww.
+
+(* the leniency, stated: leaving out the byte comparison with Json.render (kind KBytes — what the engine calls model drift
+   when it is the only disagreement) the verdict is [property_ok]: the same statement without "the bytes are the model's".
+   A tree on which only that holds (e.g. '<' left unescaped) is reported as a broken correspondence without a failing input,
+   not as a failing case. *)
+Theorem C14_property_verdict : forall c,
+  (forall v, c_payload c = Some v -> wf v) ->
+  (List.filter (fun k => match k with KBytes => false | _ => true end) (run_proc c) = [] <-> property_ok c).
+Proof. exact property_kinds_nil_iff. Qed.
+Print Assumptions C14_property_verdict.
 
 (* non-vacuity: a concrete interleaving; a concrete well-formed nested payload with control, HTML, U+2028, multi-byte and
    invalid bytes that is encodable (and an unencodable one), with a dropping predicate *)
